@@ -11,6 +11,8 @@
                                             → ok pos=<_pos> len=<image length> fnv=<image hash>
     events                                  → w@<off>+<len>#<fnv> … t@<n> fsync ret
     cut <k> <nb>                            → img len= fnv= rec n= pos= ltid= how= len= fnv=  | … err:<kind>
+    rawcut <n> [<off> <byte>]               → like cut, on the first n bytes of the current image with the byte
+                                              at <off> replaced (model fidelity on files no crash produces)
     wf                                      → 1 | 0      (FileWF of the committed list)
     saveidx                                 → slot=<i> pos=<pos> n=<entries>
     setidx <pos> <oid:off,…|->              → slot=<i>
@@ -167,6 +169,19 @@ def step (s : DS) (toks : List String) : DS × String :=
     match k.toNat?, nb.toNat? with
     | some k, some nb =>
       let b := cutImage s (some k) nb
+      (s, "img " ++ imgStr b ++ " rec " ++
+        (match recover b with
+         | .error e => errStr e
+         | .ok r => "n=" ++ toString r.txns.length ++ " pos=" ++ toString r.pos ++ " ltid=" ++
+             hexN 8 r.ltid ++ " how=" ++ howStr r.how ++ " " ++ imgStr r.bytes))
+    | _, _ => (s, "bad-op")
+  | "rawcut" :: n :: patch =>
+    match n.toNat?, patch.mapM String.toNat? with
+    | some n, some patch =>
+      let b := s.img.take n
+      let b := match patch with
+        | [off, v] => if off < b.length then b.take off ++ [v] ++ b.drop (off + 1) else b
+        | _ => b
       (s, "img " ++ imgStr b ++ " rec " ++
         (match recover b with
          | .error e => errStr e
